@@ -175,14 +175,11 @@ func c10Random(r *Rng, nschema int, lens []int) *c10Case {
 	for i := 0; i < nenv; i++ {
 		cc.env = append(cc.env, cc.schema[perm[i]])
 	}
-	// hidden: some of the rest, sometimes overlapping / unknown names (both harmless)
+	// hidden: some of the rest, sometimes overlapping with the environment fields (harmless)
 	for i := nenv; i < nschema && len(cc.hidden) < 3; i++ {
 		if r.Chance(1, 4) {
 			cc.hidden = append(cc.hidden, cc.schema[perm[i]])
 		}
-	}
-	if r.Chance(1, 10) {
-		cc.hidden = append(cc.hidden, "nosuchfield")
 	}
 	if r.Chance(1, 10) {
 		cc.hidden = append(cc.hidden, cc.env[0])
@@ -458,6 +455,35 @@ func c10Gen(g *Gen) {
 			}
 		}
 	}
+	// number of VISIBLE fields around 15 (root map count 15/16: the fixmap limit).  With an environment field in the
+	// schema at most len(schema)-1 fields are visible; all of them are when the serializer is built from a
+	// configuration without environment fields (NewEventSerializer accepts it; VerifyConfig is skipped: it would
+	// reject the empty list).  Also: every field visible next to one environment field, and one field emptied.
+	for _, ns := range []int{1, 2, 12, 13, 14, 15, 16, 17, 18} {
+		for variant := 0; variant < 4; variant++ {
+			cc := &c10Case{nout: 1, nrec: ns, schema: c10Schema(r, ns)}
+			rc := c10Rec{unescaped: false, fields: make([]string, ns)}
+			rc.unix, rc.nsec = c10Time(r)
+			for i := range rc.fields {
+				rc.fields[i] = c10Value(r, 1+r.Intn(4))
+			}
+			switch variant {
+			case 0: // no environment field at all: every schema field visible
+				cc.skipVerify = true
+			case 1: // the same with one field empty
+				cc.skipVerify = true
+				rc.fields[r.Intn(ns)] = ""
+			case 2: // one environment field, everything else visible
+				cc.env = []string{cc.schema[r.Intn(ns)]}
+			case 3: // one environment field, one hidden field
+				cc.env = []string{cc.schema[0]}
+				cc.hidden = []string{cc.schema[ns-1]}
+			}
+			cc.recs = []c10Rec{rc}
+			c10Fit(cc, 8+r.Intn(8))
+			c10Emit(g, "visible-count", cc)
+		}
+	}
 	// number of environment fields around 16 (fixmap / map16 of the nested map), duplicates allowed
 	for _, ne := range []int{1, 13, 14, 15, 16, 17, 18, 33} {
 		for rep := 0; rep < g.Pick(2, 10); rep++ {
@@ -617,8 +643,13 @@ func c10Gen(g *Gen) {
 			cls = "bad-env-empty"
 			cc.env = nil
 		case 7:
-			cls = "bad-env-unknown" // accepted by VerifyConfig, NewEventSerializer returns an error (C16's subject)
-			cc.env = append(cc.env, "nosuch")
+			if r.Bool() {
+				cls = "bad-env-unknown" // rejected by VerifyConfig; without it NewEventSerializer returns an error
+				cc.env = append(cc.env, "nosuch")
+			} else {
+				cls = "bad-hidden-unknown" // rejected by VerifyConfig; without it harmless (no field of that name)
+				cc.hidden = append(cc.hidden, "nosuchfield")
+			}
 		case 8:
 			cls = "odd-empty-chain" // accepted: no rewriter
 			cc.rw = append(cc.rw, c10Rw{field: f, chain: nil})
